@@ -890,7 +890,7 @@ class ObjEvaluator(Evaluator):
                 return None
             if attr == "__contains__" and len(args) == 1:
                 return dict_key(args[0]) in base
-        if isinstance(base, list) and attr in ("all", "any") and not args:
+        if isinstance(base, (list, Arr)) and attr in ("all", "any") and not args:
             return Evaluator.method_call(self, base, attr, args, kwargs, node)
         if isinstance(base, list):
             if attr == "sort" and not args:
